@@ -1,5 +1,6 @@
 import MicroHttp.Props.C09
 import MicroHttp.Props.C10History
+import MicroHttp.Props.Tables
 #print axioms MicroHttp.C09.poll_returns
 #print axioms MicroHttp.C09.poll_ok_without_kill
 #print axioms MicroHttp.C09.all_events_handled
@@ -10,3 +11,4 @@ import MicroHttp.Props.C10History
 #print axioms MicroHttp.C09.stale_out_is_harmless
 #print axioms MicroHttp.C10.respondMany_inv
 #print axioms MicroHttp.C10.history_inv
+#print axioms MicroHttp.Tables.client_write_state
